@@ -205,7 +205,7 @@ Definition rt_ants_rows : list string := [
   "ants/task_callback_ants.go:taskCallback.Err|R:err ret"
 ].
 Definition rt_taskx_rows : list string := [
-  "taskx/queue.go:Queue.SendCallback|if( ){ ret } S:wg.Add select{ case{ recv:closeChan } case{ send:C } } ret";
+  "taskx/queue.go:Queue.SendCallback|if( ){ ret } new:taskCallback S:wg.Add select{ case{ recv:closeChan } case{ send:C } } ret";
   "taskx/task_callback.go:taskCallback.Do|C:handler W:result W:err if( R:isHandled ){ W:isHandled S:wg.Done } R:err ret";
   "taskx/task_callback.go:taskCallback.Get2|S:wg.Wait R:result R:err ret";
   "taskx/task_callback.go:taskCallback.Get1|S:wg.Wait R:result ret"
